@@ -1,10 +1,13 @@
 ---------------------------- MODULE Gen_WsConc ----------------------------
 (* Schedule generation for C15 (model -> code).  A behaviour of WsConc is     *)
 (* projected on the steps a harness can force: "b" p  = the application of    *)
-(* process p makes its next call (its goroutine is started with the first),   *)
-(* "w" p = the transport performs the operation process p is blocked in       *)
-(* (net.Conn.Write for D and K.., net.Conn.Close for X).  Everything between  *)
-(* (lock hand-off, latch checks, returns) is the library's business.          *)
+(* process p makes its next call (its goroutine is started with the first;    *)
+(* for the reader R: the peer's next Ping / Close frame is put on the         *)
+(* transport and reaches its handler), "w" p = the transport performs the     *)
+(* operation process p is blocked in (net.Conn.Write for D, K.. and R,        *)
+(* net.Conn.Close for X), "a" D = the application of D, which paused with     *)
+(* its message open, goes on.  Everything between (lock hand-off, latch       *)
+(* checks, returns) is the library's business.                                *)
 (*                                                                            *)
 (* The emitted case carries the concrete call plan of every message (API,     *)
 (* sizes relative to the write buffer) and the frame structure the contract   *)
@@ -23,6 +26,7 @@ CONSTANTS Role,        \* "server" | "client"
           Shapes,      \* sequence of message shape names
           Ctl,         \* as Program.ctl
           Closer,      \* as Program.closer
+          Rd,          \* as Program.rd
           Fifo,        \* predict the lock hand-off as first-come-first-served
           OnlyBad,     \* emit only behaviours that violate the property (attack cfgs)
           Family       \* name of the cfg, copied into the case
@@ -37,7 +41,11 @@ F == FALSE
 \* call plan and predicted frames of a message shape.  Server frames are unmasked and a
 \* Write larger than twice the buffer goes out as header+buffered bytes followed by the
 \* caller's slice (`extra`); a client copies everything through the buffer.
-Shape(role, name) ==
+\* `pause`: the application calls of a NextWriter message (0 = NextWriter, i = the i-th Write) after
+\* which D's application pauses with the message open; `hold`: the same per predicted frame (number
+\* of pauses before the frame) - after NextWriter nothing is buffered, after a small Write the bytes
+\* are buffered and not flushed, after a large one the pause lies between two frames.
+Shape0(role, name) ==
   IF role = "server" THEN
     CASE name = "wmS"  -> [api |-> "wm", writes |-> <<WBuf \div 2>>,         frames |-> <<F>>]
       [] name = "wmL"  -> [api |-> "wm", writes |-> <<3 * WBuf>>,            frames |-> <<T>>]
@@ -45,11 +53,32 @@ Shape(role, name) ==
       [] name = "nwM"  -> [api |-> "nw", writes |-> <<WBuf + WBuf \div 2>>,  frames |-> <<F, F>>]
       [] name = "nwSL" -> [api |-> "nw", writes |-> <<10, 3 * WBuf>>,        frames |-> <<T, F>>]
       [] name = "nwLL" -> [api |-> "nw", writes |-> <<3 * WBuf, 3 * WBuf>>,  frames |-> <<T, T, F>>]
+      \* with pauses
+      [] name = "nwBp"  -> [api |-> "nw", writes |-> <<10, 3 * WBuf>>,       frames |-> <<T, F>>,
+                            pause |-> <<1>>, hold |-> <<1, 0>>]              \* bytes buffered, not flushed
+      [] name = "nwFp"  -> [api |-> "nw", writes |-> <<3 * WBuf>>,           frames |-> <<T, F>>,
+                            pause |-> <<1>>, hold |-> <<0, 1>>]              \* between two frames
+      [] name = "nwSLp" -> [api |-> "nw", writes |-> <<10, 3 * WBuf>>,       frames |-> <<T, F>>,
+                            pause |-> <<1, 2>>, hold |-> <<1, 1>>]           \* both
+      [] name = "nwSp"  -> [api |-> "nw", writes |-> <<10, 20>>,             frames |-> <<F>>,
+                            pause |-> <<0, 1>>, hold |-> <<2>>]              \* nothing buffered; bytes buffered
+      [] name = "nwLLp" -> [api |-> "nw", writes |-> <<3 * WBuf, 10, 3 * WBuf>>, frames |-> <<T, T, F>>,
+                            pause |-> <<0, 1, 2, 3>>, hold |-> <<1, 2, 1>>]
   ELSE
     CASE name = "wmS"  -> [api |-> "wm", writes |-> <<WBuf \div 2>>,         frames |-> <<F>>]
       [] name = "wmL"  -> [api |-> "wm", writes |-> <<WBuf + WBuf \div 2>>,  frames |-> <<F, F>>]
       [] name = "nwL"  -> [api |-> "nw", writes |-> <<2 * WBuf + 10>>,       frames |-> <<F, F, F>>]
       [] name = "nwM"  -> [api |-> "nw", writes |-> <<WBuf + WBuf \div 2>>,  frames |-> <<F, F>>]
+      \* with pauses (a client copies everything through the buffer: a frame goes out when it is full)
+      [] name = "nwMp"  -> [api |-> "nw", writes |-> <<10, WBuf + WBuf \div 2>>, frames |-> <<F, F>>,
+                            pause |-> <<1, 2>>, hold |-> <<1, 1>>]
+      [] name = "nwSp"  -> [api |-> "nw", writes |-> <<10, 20>>,             frames |-> <<F>>,
+                            pause |-> <<0, 1>>, hold |-> <<2>>]
+Shape(role, name) ==
+  LET sh == Shape0(role, name) IN
+  IF "pause" \in DOMAIN sh THEN sh
+  ELSE [api |-> sh.api, writes |-> sh.writes, frames |-> sh.frames,
+        pause |-> <<>>, hold |-> [f \in 1..Len(sh.frames) |-> 0]]
 
 \* named data programs and control programs of the cfgs
 S_nwL_wmS      == <<"nwL", "wmS">>
@@ -66,6 +95,7 @@ C_ping_close        == << <<"ping">>, <<"close">> >>
 C_close_ping        == << <<"close">>, <<"ping">> >>
 C_pong_close        == << <<"pong">>, <<"close">> >>
 C_close             == << <<"close">> >>
+C_none              == << >>
 C_ping              == << <<"ping">> >>
 C_close_close       == << <<"close">>, <<"close">> >>
 C_pingpong_closeping == << <<"ping", "pong">>, <<"close", "ping">> >>
@@ -77,8 +107,31 @@ C_pingS2_ping       == << <<"ping~", "ping~">>, <<"ping">> >>
 C_pingS_pong        == << <<"ping~">>, <<"pong">> >>
 C_mixS              == << <<"ping~", "ping">>, <<"close">>, <<"pong", "pong~">> >>
 
+S_nwSLp_wmL    == <<"nwSLp", "wmL">>
+S_nwSLp        == <<"nwSLp">>
+S_nwBp_wmS     == <<"nwBp", "wmS">>
+S_nwFp_wmS     == <<"nwFp", "wmS">>
+S_nwFp         == <<"nwFp">>
+S_nwSp_wmL     == <<"nwSp", "wmL">>
+S_nwMp_wmS     == <<"nwMp", "wmS">>
+S_nwMp         == <<"nwMp">>
+S_nwLLp_wmL    == <<"nwLLp", "wmL">>
+S_wmL_nwSLp    == <<"wmL", "nwSLp">>
+\* the answers of the reader's handlers; "@": the package's default handler
+R_none         == << >>
+R_pongD        == <<"pong@">>
+R_pong         == <<"pong">>
+R_pongD_pong   == <<"pong@", "pong">>
+R_pong_pongD   == <<"pong", "pong@">>
+R_pongD_closeD == <<"pong@", "close@">>
+R_pong_close   == <<"pong", "close">>
+R_closeD       == <<"close@">>
+R_pongD2_closeD == <<"pong@", "pong@", "close@">>
+R_pongD_pong_closeD == <<"pong@", "pong", "close@">>
+
 Plan == [i \in 1..Len(Shapes) |-> Shape(Role, Shapes[i])]
-GenProgram == [msgs |-> [i \in 1..Len(Shapes) |-> Plan[i].frames], ctl |-> Ctl, closer |-> Closer]
+GenProgram == [msgs |-> [i \in 1..Len(Shapes) |-> Plan[i].frames], hold |-> [i \in 1..Len(Shapes) |-> Plan[i].hold],
+               ctl |-> Ctl, rd |-> Rd, closer |-> Closer]
 
 GenInit == Init /\ hist = <<>> /\ q = <<>>
 
@@ -98,31 +151,44 @@ Turn(p)  == Fifo /\ Waits(pc, p) => (q # <<>> /\ p = Head(q))
 \* parked at a gate: it certainly waits longer than the deadline); with the lock free it
 \* is predicted to get it
 GivesUp(p) == p \in KProcs /\ pc[p] = "acq" /\ Short(p) /\ ControlTakesLock /\ lock # NoProc
-Busy(p)  == pc[p] \in {"prep", "chk", "latch", "rel", "rel1", "ret"} \/ GivesUp(p)
+Busy(p)  == \/ pc[p] \in {"prep", "chk", "latch", "fatal", "rel", "rel1", "ret", "srel"} \/ GivesUp(p)
+            \/ pc[p] = "pre" /\ (DOpen => lock = NoProc)
 BusySet  == {p \in Procs : Busy(p)}
-Before(p, r) == p = "D" \/ (r # "D" /\ (r = "X" \/ (p # "X" /\ KIdx(p) < KIdx(r))))
+Rank(p)  == IF p = "R" THEN 100 ELSE KIdx(p)
+Before(p, r) == p = "D" \/ (r # "D" /\ (r = "X" \/ (p # "X" /\ Rank(p) < Rank(r))))
 First(S) == CHOOSE p \in S : \A r \in S : p = r \/ Before(p, r)
 InQ(p)   == \E i \in 1..Len(q) : q[i] = p
 
 \* what the process does next, as far as the harness can see it: "g" it arrives at a gate,
 \* "r" its call returns, "l" it parks on the lock, "t" it waits for the lock until its
-\* short deadline expires and returns (the harness waits for that return)
+\* short deadline expires and returns (the harness waits for that return), "p" the
+\* application of D pauses with its message open (the harness waits for that)
 AfterBegin(p) ==
   IF p = "X" THEN "g"
-  ELSE IF p = "D" THEN (IF Failed THEN "r" ELSE IF lock # NoProc THEN "l" ELSE "g")
+  ELSE IF p = "D" THEN (IF Failed THEN "r" ELSE IF prog.hold[call[p] + 1][1] > 0 THEN "p"
+                        ELSE IF lock # NoProc THEN "l" ELSE "g")
   ELSE IF lock # NoProc /\ ControlTakesLock
-         THEN (IF IsShort(prog.ctl[KIdx(p)][call[p] + 1]) THEN "t" ELSE "l")
+         THEN (IF IsShort(CtlSeq(p)[call[p] + 1]) THEN "t" ELSE "l")
   ELSE IF Failed THEN "r" ELSE "g"
 AfterWrite(p) ==
-  IF p # "D" \/ closed THEN "r"
+  IF p = "R" /\ pc[p] = "steal" /\ ~closed THEN "g"
+  ELSE IF p # "D" \/ closed THEN "r"
   ELSE IF pc[p] = "hdr" /\ Msg[fr] THEN (IF FlushAtomic \/ q = <<>> THEN "g" ELSE "l")
   ELSE IF fr = Len(Msg) THEN "r"
+  ELSE IF prog.hold[call[p]][fr + 1] > 0 THEN "p"
   ELSE IF q = <<>> THEN "g" ELSE "l"
+AfterResume ==
+  IF hp > 1 THEN "p"
+  ELSE IF lock # NoProc \/ q # <<>> THEN "l"
+  ELSE IF Failed THEN "r" ELSE "g"
 
+\* the message D has open when a frame of the peer reaches the reader: "app" the application paused
+\* (bytes buffered and not flushed / between two frames), "hdr"/"extra" D is inside a flush
 Item(op, p) == [op |-> op, p |-> p,
-                exp |-> IF op = "b" THEN AfterBegin(p) ELSE AfterWrite(p),
+                exp |-> IF op = "b" THEN AfterBegin(p) ELSE IF op = "a" THEN AfterResume ELSE AfterWrite(p),
                 \* the write is a header whose frame still needs its `extra`
-                more |-> op = "w" /\ p = "D" /\ pc[p] = "hdr" /\ ~closed /\ Msg[fr]]
+                more |-> op = "w" /\ p = "D" /\ pc[p] = "hdr" /\ ~closed /\ Msg[fr],
+                dopen |-> IF op = "b" /\ p = "R" /\ pc["D"] \in {"app", "hdr", "extra"} THEN pc["D"] ELSE ""]
 
 Moves ==
   IF BusySet # {}
@@ -130,6 +196,7 @@ Moves ==
   ELSE IF \E p \in Procs : CanAcquire(p) /\ Turn(p)
     THEN \E p \in Procs : CanAcquire(p) /\ Turn(p) /\ Steady(p) /\ UNCHANGED hist
   ELSE \/ \E p \in Procs : Begin(p) /\ hist' = Append(hist, Item("b", p))
+       \/ Resume /\ hist' = Append(hist, Item("a", "D"))
        \/ \E p \in Procs : TWrite(p) /\ hist' = Append(hist, Item("w", p))
        \/ XClose /\ hist' = Append(hist, Item("w", "X"))
 
@@ -142,7 +209,7 @@ GenStep ==
 GenNext    == GenStep \/ (Done /\ UNCHANGED gvars)
 GenNextSim == GenStep            \* simulation: a finished behaviour ends the run
 
-Good == WholeFrames /\ AfterClose /\ InOrder
+Good == WholeFrames /\ AfterClose /\ InOrder /\ MsgIntact
 
 \* "hold D between the header write and the `extra` write of a frame and begin every other process"
 Decisive ==
@@ -152,9 +219,12 @@ Decisive ==
            x   == IF nxt = {} THEN Len(hist) + 1 ELSE CHOOSE j \in nxt : \A k \in nxt : j <= k
        IN \A p \in Procs \ {"D"} : \E j \in (h + 1)..(x - 1) : hist[j].op = "b" /\ hist[j].p = p
 
-Case == [family |-> Family, role |-> Role, wbuf |-> WBuf, msgs |-> Plan, ctl |-> Ctl, closer |-> Closer,
+\* the peer's frames reach the reader while D has its message open: in which states of D
+ROpen == {hist[h].dopen : h \in 1..Len(hist)} \ {""}
+
+Case == [family |-> Family, role |-> Role, wbuf |-> WBuf, msgs |-> Plan, ctl |-> Ctl, rd |-> Rd, closer |-> Closer,
          sched |-> [i \in 1..Len(hist) |-> hist[i].op \o ":" \o hist[i].p \o ":" \o hist[i].exp],
-         attack |-> ~Good, decisive |-> Decisive]
+         attack |-> ~Good, decisive |-> Decisive \/ "app" \in ROpen, ropen |-> ROpen]
 
 Emit == (Done /\ (OnlyBad => ~Good)) => PrintT(<<"CASE", ToJson(Case)>>)
 =============================================================================
